@@ -145,6 +145,9 @@ def make_meta(kind, sites=None, *, encoding="shank", stream="ap", ns=100, fs=Non
         L.append(f"{t}snsShankMap=(4,2,640)" + "".join(shank_entry(kind, s) for s in sites))
     elif encoding == "geom":
         L.append(f"{t}snsGeomMap=(PRBX,4,250,70)" + "".join(geom_entry(kind, s) for s in sites))
+    elif encoding == "both":        # a geometry map added to metadata that kept its shank map
+        L.append(f"{t}snsShankMap=(4,2,640)" + "".join(shank_entry(kind, s) for s in sites))
+        L.append(f"{t}snsGeomMap=(PRBX,4,250,70)" + "".join(geom_entry(kind, s) for s in sites))
     elif encoding == "none":
         pass
     else:
